@@ -537,6 +537,12 @@ func cacheCaseBody(r *Run, rng *rand.Rand, cfg cacheCfg, nClients int, sample bo
 			emit("spawn %s iter %d", g.name, rec.cost)
 		case "updmax":
 			rec.cost = cfg.maxCost + int64(rng.Intn(50))
+			if rng.Intn(3) == 0 { // lowering MaxCost is legal too (below the internal item size included)
+				rec.cost = int64(1 + rng.Intn(int(cfg.maxCost)))
+				if rng.Intn(2) == 0 {
+					rec.cost = int64(1 + rng.Intn(70))
+				}
+			}
 			emit("spawn %s updmax %d", g.name, rec.cost)
 		default:
 			emit("spawn %s %s", g.name, kind)
@@ -979,6 +985,17 @@ func oracleQuiescent(r *Run, s *sched, cfg cacheCfg, cache *ristretto.Cache[uint
 			if !pk[e.Key] {
 				r.Fail("C13", fmt.Sprintf("key %d is stored but not accounted (drained state)", e.Key), in)
 			}
+		}
+		// C03: "RemainingCost() always equals MaxCost minus the sum of the costs the cache accounts for
+		// its RESIDENT keys" (drained state, no colliding hashes)
+		resSum := int64(0)
+		for _, kc := range sn.KeyCosts {
+			if sk[kc.Key] {
+				resSum += kc.Cost
+			}
+		}
+		if rem := cache.RemainingCost(); rem != sn.MaxCost-resSum {
+			r.Fail("C03", fmt.Sprintf("drained state: RemainingCost()=%d but MaxCost - (costs of the resident keys) = %d - %d: capacity is charged for keys that are not resident", rem, sn.MaxCost, resSum), in)
 		}
 		for k := range pk {
 			if !sk[k] {
